@@ -201,7 +201,9 @@ func checkFeePayerHasFunds(ctx sdk.Context, bankKeeper BankKeeper, accKeeper Acc
 	// the locked FUND will be unlocked in the next decorator
 	potentialCoins = potentialCoins.Add(lockedUndCoins...)
 
-	_, fee := fees.Find(expectedFeeDenom)
+	// not fees.Find: for a fee without the fee denomination it returns an empty Coin whose nil
+	// amount makes the SafeSub below panic inside the ante handler
+	fee := sdk.NewCoin(expectedFeeDenom, fees.AmountOf(expectedFeeDenom))
 	// verify the account has enough funds to pay for fees, including any locked enterprise FUND
 	_, hasNeg := potentialCoins.SafeSub(fee)
 	if hasNeg {
